@@ -21,7 +21,7 @@ KIND = {"sep": "separate", "same": "identical", "below": "overlapping with the d
         "above": "overlapping with the destination above the source"}
 
 
-def contracts_of(fn):
+def contracts_of(fn, copy_macros=False):
     pidx = {p["id"]: i for i, p in enumerate(fn["params"]) if "*" in p.get("ct", "")}
     out = {}
     if len(pidx) < 2:
@@ -29,6 +29,22 @@ def contracts_of(fn):
     for b, t in r_assert.assert_sites(fn):
         txt = t.get("txt", "")
         if not txt.lstrip().startswith("ASSERT"):
+            # an overlap assertion inside another macro (mpn_copyd is MPN_COPY_DECR (rp, sp, n), which asserts MPN_SAME_OR_DECR_P itself):
+            # read the relation off the expanded condition  !((dst) >= (src) || ! MPN_OVERLAP_P (...))
+            # (only for the routines whose whole body is that macro - asked for by the caller; an MPN_COPY in the middle of a function is not
+            # an entry contract)
+            if copy_macros and "ASSERT" in (t.get("m") or []) and any(x in (t.get("m") or []) for x in ("MPN_COPY_DECR", "MPN_COPY_INCR")):
+                c = t.get("cond")
+                while isinstance(c, dict) and c.get("k") in ("unop", "cast", "paren") and (c.get("k") != "unop" or c["op"] == "!"):
+                    c = c["e"]
+                if isinstance(c, dict) and c.get("k") == "binop" and c["op"] == "||":
+                    l = c["l"]
+                    while isinstance(l, dict) and l.get("k") in ("cast", "paren"):
+                        l = l["e"]
+                    if isinstance(l, dict) and l.get("k") == "binop" and l["op"] in (">=", "<=") and l["l"].get("k") == "var" and l["r"].get("k") == "var" \
+                            and l["l"]["id"] in pidx and l["r"]["id"] in pidx:
+                        kind = {"same", "sep", "above"} if l["op"] == ">=" else {"same", "sep", "below"}
+                        out[(pidx[l["l"]["id"]], pidx[l["r"]["id"]])] = (frozenset(kind), " ".join(txt.split())[:70])
             continue
         if "MPN_SAME_OR_SEPARATE2" in txt or "MPN_SAME_OR_INCR2" in txt or "MPN_SAME_OR_DECR2" in txt:
             continue
